@@ -10,8 +10,11 @@ term algebra: a float / complex value is the text of the expression that compute
 `fop:add(f:3ff0000000000000,conv:int(5))`.  The Rust harness evaluates these terms with Rust's own
 `f64` / `Complex64` / `BigInt::to_f64` operations and compares the result with what the interpreter
 returned, which checks dispatch and conversion, not IEEE arithmetic.  Exact results (ints,
-rationals) are printed as canonical values.  In the Spec column the conversions to float are not
-symbolic: they are the correctly rounded bit patterns (`F64.ofRatRNE`). -/
+rationals) are printed as canonical values.  In the Spec column the conversions to float and the
+float operations `+ - * /` and unary minus are not symbolic: they are computed in Lean as the
+exact rational result rounded once to nearest-even (`F64.ofRatRNE`, `F64.add` … of
+Impl/F64Ieee.lean), so the real interpreter's float arithmetic is compared bit for bit with
+IEEE-754 as mathematics. -/
 import NoulithModel.Spec.TowerSpec
 
 namespace Noulith.DriverC07
@@ -70,13 +73,39 @@ def hex16 (n : Nat) : String :=
   let ds := Nat.toDigits 16 n
   String.ofList (List.replicate (16 - ds.length) '0' ++ ds)
 
-/-- the structure the SPEC column is evaluated with: the same free term algebra, but the
-conversions int → float and rational → float are the correctly rounded ones (`F64.ofRatRNE`),
-printed as float literals -/
+def litBits? (s : String) : Option Nat :=
+  if s.startsWith "f:" ∧ s.length = 18 then parseHex (s.drop 2).toString else none
+
+def lit (n : Nat) : String := "f:" ++ hex16 n
+
+/-- an IEEE operation of Impl/F64Ieee.lean on float literals, the symbolic term otherwise -/
+def conc2 (f : Nat → Nat → Nat) (symf : String → String → String) (a b : String) : String :=
+  match litBits? a, litBits? b with
+  | some x, some y => lit (f x y)
+  | _, _ => symf a b
+
+def conc1 (f : Nat → Nat) (symf : String → String) (a : String) : String :=
+  match litBits? a with
+  | some x => lit (f x)
+  | none => symf a
+
+/-- the structure the SPEC column is evaluated with (`F64.ieeeOps` over the term algebra): the
+conversions int → float and rational → float are the correctly rounded ones (`F64.ofRatRNE`) and
+`+ - * / %`, `div_euclid`, `rem_euclid` and unary minus on floats are the IEEE-754 operations of
+Impl/F64Ieee.lean (exact rational result rounded once), all printed as float literals; powers and
+complex arithmetic stay symbolic -/
 def symSpec : FloatOps String String :=
   { sym with
-    ofInt := fun i => "f:" ++ hex16 (F64.ofRatRNE (i : Rat))
-    ofRat := fun q => "f:" ++ hex16 (F64.ofRatRNE q) }
+    ofInt := fun i => lit (F64.ofRatRNE (i : Rat))
+    ofRat := fun q => lit (F64.ofRatRNE q)
+    add := conc2 F64.add sym.add
+    sub := conc2 F64.sub sym.sub
+    mul := conc2 F64.mul sym.mul
+    div := conc2 F64.div sym.div
+    rem := conc2 F64.rem sym.rem
+    divEuclid := conc2 F64.divEuclid sym.divEuclid
+    remEuclid := conc2 F64.remEuclid sym.remEuclid
+    neg := conc1 F64.neg sym.neg }
 
 abbrev SNum := NNum String String
 abbrev SObj := VObj String String
